@@ -349,7 +349,7 @@ Definition unfold_value (t : gtype) (old : gvalue) (evs0 : list event) : uresult
   | Some e => USetupErr e
   | None =>
       let evs := flat_map expand evs0 in
-      match uf (S (S (length evs)) + ftsize t) t old evs with
+      match uf (S (S (2 * length evs)) + ftsize t) t old evs with
       | UOk v [] => UDone v
       | UOk v rest => UFail (length evs - length rest)     (* events after the value: no target *)
       | UErr [] => UMore
